@@ -155,7 +155,7 @@ def _zero_d_probe(name, f, args, kw):
         if hasattr(mu, "_verif_sinks"):
             mu._verif_sinks[:] = sinks
     for key, z, v in watch:
-        if z.shape != () or not (z == v):
+        if z.shape != () or not np.array_equal(z, np.array(v), equal_nan=True):     # (an option may be nan)
             FLAGS.append(dict(kind="option_array_modified", of=name + ":" + key, modified=1,
                               earlier_job="value %r became %r" % (v, z.tolist() if z.size < 5 else "...")))
 
